@@ -6,7 +6,7 @@ D=/tmp/mut/$1; WT=$D/wt; export CARGO_TARGET_DIR=$D/target CARGO_NET_OFFLINE=tru
 cd $WT || exit 2
 DEMO=$(ls tests/ 2>/dev/null | grep -i demo | head -1)
 echo "demo file: tests/$DEMO"
-git stash -q -u 2>/dev/null; git checkout -q -- . ; git clean -qfd tests examples 2>/dev/null
+git checkout -q -- . ; git clean -qfd tests examples 2>/dev/null
 if ! git apply --check $D/patch.diff; then echo "PATCH DOES NOT APPLY"; exit 1; fi
 # without the change: demo must pass
 mkdir -p tests; cp $D/$DEMO tests/ 2>/dev/null || cp $D/demo*.rs tests/
